@@ -113,6 +113,20 @@ func (s dirState) summary() string {
 	return strings.Join(ks, " ")
 }
 
+var reRandomPart = regexp.MustCompile(`[0-9]{4,}`)
+
+// shape is summary with the random part of file names (os.CreateTemp's
+// number) blanked: two runs of an implementation that picks random temporary
+// names leave files of the same shape, not of the same name.
+func (s dirState) shape() string {
+	var ks []string
+	for k, v := range s {
+		ks = append(ks, fmt.Sprintf("%s:%d", reRandomPart.ReplaceAllString(k, "#"), len(v)))
+	}
+	sort.Strings(ks)
+	return strings.Join(ks, " ")
+}
+
 // ---------------------------------------------------------------- trace
 
 type call struct {
@@ -379,8 +393,9 @@ func enumerate(c *mon.Case, r *mon.Run, work string, pre dirState, allTorn bool,
 			}
 			// a start that generates a fresh random identity (and the ticket
 			// store's issue time) differs in content from run to run, so the
-			// comparison is on file names and lengths
-			if got.summary() != cs.st.summary() {
+			// comparison is on file names (without their random part, if a
+			// temporary name has one) and lengths
+			if got.shape() != cs.st.shape() {
 				// was the kill delivered where we wanted it?
 				if len(klines) != calls[cs.k].line {
 					r.Count("kill_validation_trace_differs", 1)
